@@ -5,7 +5,9 @@
 
 use super::iogen;
 use crate::e2proto::*;
-use crate::exec::{exec, panic_fingerprint, Cmd, Ctx, E2Params, HarnessError, IoStep, Outcome, Status};
+use crate::exec::{
+    exec, panic_fingerprint, Cmd, Ctx, E2Params, HarnessError, IoStep, Outcome, Status,
+};
 use crate::framework::RunReport;
 use crate::prng::{Fnv, Rng};
 use crate::refmodel::{self as rm, PathComp};
@@ -86,7 +88,9 @@ pub enum Selector {
 }
 
 pub fn parse_path_spec(s: &str) -> Selector {
-    let Some(rest) = s.strip_prefix("m/") else { return Selector::Malformed };
+    let Some(rest) = s.strip_prefix("m/") else {
+        return Selector::Malformed;
+    };
     let mut comps = Vec::new();
     let mut open = false;
     for c in rest.split('/') {
@@ -99,7 +103,8 @@ pub fn parse_path_spec(s: &str) -> Selector {
         }
         if !num.bytes().all(|b| b.is_ascii_digit()) {
             // Rust's integer parser also takes a leading '+': left open
-            if num.starts_with('+') && num.len() > 1 && num[1..].bytes().all(|b| b.is_ascii_digit()) {
+            if num.starts_with('+') && num.len() > 1 && num[1..].bytes().all(|b| b.is_ascii_digit())
+            {
                 open = true;
                 continue;
             }
@@ -124,7 +129,11 @@ pub fn classify_selector(index: &Option<String>, path: &Option<String>) -> Selec
         (None, None) => Selector::Path(rm::default_path(0)),
         (Some(i), None) => {
             if !i.bytes().all(|b| b.is_ascii_digit()) || i.is_empty() {
-                return if i.starts_with('+') { Selector::Open } else { Selector::Malformed };
+                return if i.starts_with('+') {
+                    Selector::Open
+                } else {
+                    Selector::Malformed
+                };
             }
             match i.parse::<u128>() {
                 Ok(v) if v < 0x8000_0000 => Selector::Path(rm::default_path(v as u32)),
@@ -168,7 +177,11 @@ impl NewCase {
             argv: self.argv(),
             entropy: self.entropy.clone(),
             tail: self.tail.clone(),
-            wplan: if real_binary { self.wplan.clone() } else { Vec::new() },
+            wplan: if real_binary {
+                self.wplan.clone()
+            } else {
+                Vec::new()
+            },
             e2: if force_e1 { None } else { self.e2.clone() },
             e3: self.e3 && !force_e1,
             ..Cmd::default()
@@ -180,10 +193,16 @@ impl NewCase {
             // a search that cannot succeed after a few milliseconds instead of the 10 s watchdog.
             let w = self.workers().min(64);
             c.e2 = Some(E2Params {
-                sched: SchedSpec { policy: "random".into(), seed: 0, param: 0, horizon: 0, trace: vec![] },
-                max_steps: (200 + 40 * (self.entropy.len() + w)) as u32,
-                generous_bound: (64 * (w + 2)) as u32,
-                generous_requests: (2 * (w + 2)) as u32,
+                sched: SchedSpec {
+                    policy: "random".into(),
+                    seed: 0,
+                    param: 0,
+                    horizon: 0,
+                    trace: vec![],
+                },
+                max_steps: step_budget(self.entropy.len(), w),
+                generous_bound: generous_steps(w),
+                generous_requests: generous_requests(w),
                 lib_tasks: 0,
                 lib_len: 0,
                 lib_calls: 0,
@@ -204,7 +223,11 @@ impl NewCase {
         let selector = classify_selector(&self.account_index, &self.hd_path);
         let length = parse_usize_arg(&self.length, 12);
         let threads = parse_usize_arg(&self.threads, 1);
-        let lang_ok = self.language.as_deref().map(|l| l.to_lowercase() == "english").unwrap_or(true);
+        let lang_ok = self
+            .language
+            .as_deref()
+            .map(|l| l.to_lowercase() == "english")
+            .unwrap_or(true);
         let password = self.password.clone().unwrap_or_default();
         let vanity = pclass != PrefixClass::None;
 
@@ -217,7 +240,10 @@ impl NewCase {
                     "C17",
                     "panic",
                     panic_fingerprint(&p.loc, &p.msg),
-                    format!("[{engine}] `{argv}`: task {} panicked at {}: {}", p.task, p.loc, p.msg),
+                    format!(
+                        "[{engine}] `{argv}`: task {} panicked at {}: {}",
+                        p.task, p.loc, p.msg
+                    ),
                 );
             }
             match h.end.as_str() {
@@ -238,8 +264,8 @@ impl NewCase {
                         "new|no-progress",
                         format!(
                             "[{engine}] `{argv}`: no exit within {} scheduling steps / {} further entropy requests after every entropy response became a match ({})",
-                            self.e2.as_ref().map(|e| e.generous_bound).unwrap_or((64 * (self.workers().min(64) + 2)) as u32),
-                            self.e2.as_ref().map(|e| e.generous_requests).unwrap_or((2 * (self.workers().min(64) + 2)) as u32),
+                            self.e2.as_ref().map(|e| e.generous_bound).unwrap_or(generous_steps(self.workers().min(64))),
+                            self.e2.as_ref().map(|e| e.generous_requests).unwrap_or(generous_requests(self.workers().min(64))),
                             h.detail
                         ),
                     );
@@ -260,19 +286,45 @@ impl NewCase {
             Status::Exit(101) if o.e2.as_ref().map(|h| h.panics.is_empty()).unwrap_or(true) => {
                 crashed = true;
                 let (loc, msg) = o.panic_site().unwrap_or_default();
-                rep.violate("C17", "panic", panic_fingerprint(&loc, &msg), format!("[{engine}] `{argv}`: panicked at {loc}: {msg}"));
+                rep.violate(
+                    "C17",
+                    "panic",
+                    panic_fingerprint(&loc, &msg),
+                    format!("[{engine}] `{argv}`: panicked at {loc}: {msg}"),
+                );
             }
             Status::Signal(s) => {
                 crashed = true;
-                rep.violate("C17", "abort", format!("new|signal {s}"), format!("[{engine}] `{argv}`: killed by signal {s}: {}", first_line(&o.stderr)));
+                rep.violate(
+                    "C17",
+                    "abort",
+                    format!("new|signal {s}"),
+                    format!(
+                        "[{engine}] `{argv}`: killed by signal {s}: {}",
+                        first_line(&o.stderr)
+                    ),
+                );
             }
             Status::Timeout => {
                 crashed = true;
-                rep.violate("C17", "hang", "new|timeout", format!("[{engine}] `{argv}`: still running after the wall-clock limit"));
+                rep.violate(
+                    "C17",
+                    "hang",
+                    "new|timeout",
+                    format!("[{engine}] `{argv}`: still running after the wall-clock limit"),
+                );
             }
-            Status::Exit(c) if ![0, 2, 255, 101].contains(c) && o.e2.as_ref().map(|h| h.end == "exit").unwrap_or(true) => {
+            Status::Exit(c)
+                if ![0, 2, 255, 101].contains(c)
+                    && o.e2.as_ref().map(|h| h.end == "exit").unwrap_or(true) =>
+            {
                 crashed = true;
-                rep.violate("C17", "abort", format!("new|exit {c}"), format!("[{engine}] `{argv}`: unexpected exit status {c}"));
+                rep.violate(
+                    "C17",
+                    "abort",
+                    format!("new|exit {c}"),
+                    format!("[{engine}] `{argv}`: unexpected exit status {c}"),
+                );
             }
             _ => {}
         }
@@ -285,12 +337,20 @@ impl NewCase {
         let printed_anything = !o.stdout.is_empty();
 
         // ---- argument-level expectations ------------------------------------------
-        let usage_error = length.is_none() || threads.is_none() || !lang_ok || selector == Selector::Conflict || pclass == PrefixClass::NonHex;
+        let usage_error = length.is_none()
+            || threads.is_none()
+            || !lang_ok
+            || selector == Selector::Conflict
+            || pclass == PrefixClass::NonHex;
         if pclass == PrefixClass::NonHex {
             // "refused" = an ordinary error and nothing printed. Printing a phrase is acceptance,
             // and so is starting a search (the run then ends in the liveness/step bound or the
             // watchdog, because nothing was planted for whatever is being searched for).
-            let searching = o.status == Status::Timeout || o.e2.as_ref().map(|h| matches!(h.end.as_str(), "liveness" | "budget" | "deadlock")).unwrap_or(false);
+            let searching = o.status == Status::Timeout
+                || o.e2
+                    .as_ref()
+                    .map(|h| matches!(h.end.as_str(), "liveness" | "budget" | "deadlock"))
+                    .unwrap_or(false);
             if o.status.ok() || printed_anything || searching {
                 rep.violate(
                     "C18",
@@ -310,7 +370,15 @@ impl NewCase {
                 // unparsable numbers, unknown language, both selectors: not properties of C12/C18,
                 // but a phrase printed here would not be "generation of a supported length"
                 if printed_anything {
-                    rep.violate("C12", "printed-on-usage-error", "new|usage", format!("[{engine}] `{argv}`: invalid usage, yet printed {:?}", trunc(&stdout)));
+                    rep.violate(
+                        "C12",
+                        "printed-on-usage-error",
+                        "new|usage",
+                        format!(
+                            "[{engine}] `{argv}`: invalid usage, yet printed {:?}",
+                            trunc(&stdout)
+                        ),
+                    );
                 }
             }
             return;
@@ -350,14 +418,21 @@ impl NewCase {
             let line_ok = stdout.ends_with('\n') && stdout.matches('\n').count() == 1;
             let phrase = stdout.trim_end_matches('\n').to_string();
             match rm::bip39_decode(&phrase) {
-                Ok(e) if line_ok && phrase.split(' ').count() == length && e.len() == ent_len => Some((phrase, e)),
+                Ok(e) if line_ok && phrase.split(' ').count() == length && e.len() == ent_len => {
+                    Some((phrase, e))
+                }
                 other => {
+                    let detail = format!("[{engine}] `{argv}`: exit 0 but stdout {:?} is not exactly one valid {length}-word BIP-39 phrase line ({:?})", trunc(&stdout), other.err());
                     rep.violate(
                         "C12",
                         "output-not-a-valid-phrase",
                         "new|phrase",
-                        format!("[{engine}] `{argv}`: exit 0 but stdout {:?} is not exactly one valid {length}-word BIP-39 phrase line ({:?})", trunc(&stdout), other.err()),
+                        detail.clone(),
                     );
+                    if matches!(pclass, PrefixClass::Hex(_)) {
+                        // C18: "the phrase printed ... is a valid mnemonic of that length"
+                        rep.violate("C18", "output-not-a-valid-phrase", "new|phrase", detail);
+                    }
                     None
                 }
             }
@@ -367,7 +442,11 @@ impl NewCase {
                     "C12",
                     "output-on-failure",
                     "new|stdout",
-                    format!("[{engine}] `{argv}`: status {:?} yet stdout {:?}", o.status, trunc(&stdout)),
+                    format!(
+                        "[{engine}] `{argv}`: status {:?} yet stdout {:?}",
+                        o.status,
+                        trunc(&stdout)
+                    ),
                 );
             }
             None
@@ -376,7 +455,9 @@ impl NewCase {
         // ---- C12 rule 1/5: the phrase carries exactly bytes the source delivered -----
         if let Some((phrase, e)) = &printed {
             let hexe = hex::encode(e);
-            let delivered = ok_events.iter().any(|ev| ev.bytes == hexe && ev.len as usize == ent_len);
+            let delivered = ok_events
+                .iter()
+                .any(|ev| ev.bytes == hexe && ev.len as usize == ent_len);
             if !delivered {
                 rep.violate(
                     "C12",
@@ -426,7 +507,8 @@ impl NewCase {
         }
 
         // ---- expected outcome ----------------------------------------------------------
-        let args_pinned = path.is_some() && matches!(pclass, PrefixClass::None | PrefixClass::Hex(_));
+        let args_pinned =
+            path.is_some() && matches!(pclass, PrefixClass::None | PrefixClass::Hex(_));
         if !args_pinned {
             // open spelling or open selector: either refusal or a (checked above) result
             if !vanity && selector == Selector::Malformed {
@@ -461,7 +543,11 @@ impl NewCase {
                     // prefix clauses above (any delivered qualifying value satisfies the
                     // statements; the first one is what the present code returns).
                     if printed.is_none() {
-                        let (prop, clause) = if vanity { ("C18", "refused-valid-search") } else { ("C12", "no-phrase-for-supported-length") };
+                        let (prop, clause) = if vanity {
+                            ("C18", "refused-valid-search")
+                        } else {
+                            ("C12", "no-phrase-for-supported-length")
+                        };
                         rep.violate(
                             prop,
                             clause,
@@ -498,10 +584,23 @@ impl NewCase {
                             format!("[{engine}] `{argv}`: exit 0 although no qualifying entropy was ever delivered ({} requests)", o.ent.len()),
                         );
                     } else if !o.status.ok() && !crashed && fail_events.is_empty() {
-                        rep.violate("C12", "spurious-error", "new|spurious", format!("[{engine}] `{argv}`: status {:?} without any entropy failure: {}", o.status, first_line(&o.stderr)));
+                        rep.violate(
+                            "C12",
+                            "spurious-error",
+                            "new|spurious",
+                            format!(
+                                "[{engine}] `{argv}`: status {:?} without any entropy failure: {}",
+                                o.status,
+                                first_line(&o.stderr)
+                            ),
+                        );
                     } else if crashed && fail_events.is_empty() && printed.is_none() {
                         // valid arguments, no injected failure, and the process died before a result
-                        let (prop, clause) = if vanity { ("C18", "refused-valid-search") } else { ("C12", "no-phrase-for-supported-length") };
+                        let (prop, clause) = if vanity {
+                            ("C18", "refused-valid-search")
+                        } else {
+                            ("C12", "no-phrase-for-supported-length")
+                        };
                         rep.violate(prop, clause, "new|crash", format!("[{engine}] `{argv}`: valid request produced no phrase (status {:?})", o.status));
                     }
                 }
@@ -516,7 +615,8 @@ impl NewCase {
                 // anyone, the command knew of the failure before any result existed and must fail.
                 // ... nor may the searcher it was reported to simply carry on drawing
                 for f in &fail_events {
-                    if let Some(later) = o.ent.iter().find(|ev| ev.task == f.task && ev.seq > f.seq) {
+                    if let Some(later) = o.ent.iter().find(|ev| ev.task == f.task && ev.seq > f.seq)
+                    {
                         rep.violate(
                             "C12",
                             "entropy-failure-retried",
@@ -531,9 +631,19 @@ impl NewCase {
                 }
                 if let (Some(h), Some((_, e))) = (&o.e2, &printed) {
                     let hexe = hex::encode(e);
-                    let first_delivery = h.entropy.iter().filter(|ev| ev.ok && ev.bytes == hexe).map(|ev| ev.step).min();
+                    let first_delivery = h
+                        .entropy
+                        .iter()
+                        .filter(|ev| ev.ok && ev.bytes == hexe)
+                        .map(|ev| ev.step)
+                        .min();
                     for f in &fail_events {
-                        let finished_at = h.finished_before_exit.iter().zip(h.finished_steps.iter()).find(|(t, _)| **t == f.task).map(|(_, s)| *s);
+                        let finished_at = h
+                            .finished_before_exit
+                            .iter()
+                            .zip(h.finished_steps.iter())
+                            .find(|(t, _)| **t == f.task)
+                            .map(|(_, s)| *s);
                         if let (Some(fin), Some(win)) = (finished_at, first_delivery) {
                             if fin < win {
                                 rep.violate(
@@ -563,23 +673,57 @@ impl NewCase {
                     );
                 }
             } else if fail_events.is_empty() && printed.is_none() {
-                rep.violate("C18", "refused-valid-search", "new|crash", format!("[{engine}] `{argv}`: valid vanity search produced no phrase (status {:?})", o.status));
+                rep.violate(
+                    "C18",
+                    "refused-valid-search",
+                    "new|crash",
+                    format!(
+                        "[{engine}] `{argv}`: valid vanity search produced no phrase (status {:?})",
+                        o.status
+                    ),
+                );
             }
         }
     }
 
     fn account_faults(&self, o: &Outcome, rep: &mut RunReport) {
-        let cfg_fail = self.entropy.iter().filter(|r| matches!(r, EntResp::Fail { .. })).count() as u64;
-        let cfg_scribble = self.entropy.iter().filter(|r| matches!(r, EntResp::Fail { partial, .. } if !partial.is_empty())).count() as u64;
+        let cfg_fail = self
+            .entropy
+            .iter()
+            .filter(|r| matches!(r, EntResp::Fail { .. }))
+            .count() as u64;
+        let cfg_scribble = self
+            .entropy
+            .iter()
+            .filter(|r| matches!(r, EntResp::Fail { partial, .. } if !partial.is_empty()))
+            .count() as u64;
         let fired_fail = o.ent.iter().filter(|e| !e.ok && e.src == "plan").count() as u64;
         rep.fault("entropy_failure", cfg_fail, fired_fail);
-        rep.fault("entropy_failure_with_partial_scribble", cfg_scribble, if cfg_scribble > 0 { fired_fail.min(cfg_scribble) } else { 0 });
+        rep.fault(
+            "entropy_failure_with_partial_scribble",
+            cfg_scribble,
+            if cfg_scribble > 0 {
+                fired_fail.min(cfg_scribble)
+            } else {
+                0
+            },
+        );
         let is_pattern = |h: &str| {
             let b = hex::decode(h).unwrap_or_default();
-            !b.is_empty() && (b.iter().all(|x| *x == b[0]) || b.windows(2).all(|w| w[1] == w[0].wrapping_add(1)))
+            !b.is_empty()
+                && (b.iter().all(|x| *x == b[0])
+                    || b.windows(2).all(|w| w[1] == w[0].wrapping_add(1)))
         };
-        let cfg_pat = self.entropy.iter().filter(|r| matches!(r, EntResp::Ok(h) if is_pattern(h))).count() as u64;
-        let fired_pat = o.ent.iter().filter(|e| e.ok && is_pattern(&e.bytes)).count() as u64;
+        let cfg_pat = self
+            .entropy
+            .iter()
+            .filter(|r| matches!(r, EntResp::Ok(h) if is_pattern(h)))
+            .count() as u64;
+        let fired_pat = o
+            .ent
+            .iter()
+            .filter(|e| e.ok && is_pattern(&e.bytes))
+            .count() as u64;
         rep.fault("entropy_degenerate_pattern", cfg_pat, fired_pat);
         let (c, e, _) = iogen::configured(&self.wplan);
         let fw = iogen::fired(&o.io, 'W');
@@ -592,7 +736,11 @@ impl NewCase {
         }
         if let Some(h) = &o.e2 {
             rep.sched_steps += h.steps as u64;
-            rep.fault("schedule_preemption", if h.tasks > 1 { 1 } else { 0 }, h.preemptions as u64);
+            rep.fault(
+                "schedule_preemption",
+                if h.tasks > 1 { 1 } else { 0 },
+                h.preemptions as u64,
+            );
             let tasks_ran: std::collections::BTreeSet<u32> = h.choices.iter().copied().collect();
             if tasks_ran.len() > 1 {
                 rep.nontrivial = true;
@@ -601,26 +749,57 @@ impl NewCase {
                 let phrase = o.stdout_str();
                 rm::bip39_decode(phrase.trim()).ok().and_then(|e| {
                     let hx = hex::encode(e);
-                    h.entropy.iter().rev().find(|ev| ev.ok && ev.bytes == hx).map(|ev| ev.task)
+                    h.entropy
+                        .iter()
+                        .rev()
+                        .find(|ev| ev.ok && ev.bytes == hx)
+                        .map(|ev| ev.task)
                 })
             } else {
                 None
             };
-            rep.probe("winner_is_not_first_worker", matches!(winner_task, Some(t) if t > 1));
-            rep.probe("winner_value_drawn_by_main", winner_task == Some(0) && h.tasks > 1);
-            rep.probe("two_or_more_workers_finished_before_exit", h.finished_before_exit.len() >= 2);
-            rep.probe("worker_still_searching_at_exit", h.end == "exit" && h.unfinished_at_end > 0);
-            rep.probe("entropy_failure_but_another_worker_won", fired_fail > 0 && o.status.ok());
+            rep.probe(
+                "winner_is_not_first_worker",
+                matches!(winner_task, Some(t) if t > 1),
+            );
+            rep.probe(
+                "winner_value_drawn_by_main",
+                winner_task == Some(0) && h.tasks > 1,
+            );
+            rep.probe(
+                "two_or_more_workers_finished_before_exit",
+                h.finished_before_exit.len() >= 2,
+            );
+            rep.probe(
+                "worker_still_searching_at_exit",
+                h.end == "exit" && h.unfinished_at_end > 0,
+            );
+            rep.probe(
+                "entropy_failure_but_another_worker_won",
+                fired_fail > 0 && o.status.ok(),
+            );
             let failing_finished_early = o.status.ok()
-                || h.entropy.iter().filter(|e| !e.ok).any(|f| h.finished_before_exit.contains(&f.task));
-            rep.probe("failing_worker_finished_before_exit", fired_fail > 0 && failing_finished_early && h.tasks > 2);
-            rep.probe("entropy_failure_made_the_command_fail", fired_fail > 0 && !o.status.ok());
+                || h.entropy
+                    .iter()
+                    .filter(|e| !e.ok)
+                    .any(|f| h.finished_before_exit.contains(&f.task));
+            rep.probe(
+                "failing_worker_finished_before_exit",
+                fired_fail > 0 && failing_finished_early && h.tasks > 2,
+            );
+            rep.probe(
+                "entropy_failure_made_the_command_fail",
+                fired_fail > 0 && !o.status.ok(),
+            );
             rep.probe("device_turned_generous", h.generous_at_step.is_some());
             rep.probe("worker_died_by_panic", h.died > 0);
             rep.probe("deadlock_detected", h.end == "deadlock");
             if let Some(g) = h.generous_at_step {
                 let after = h.steps.saturating_sub(g);
-                let e = rep.probes.entry("max_steps_after_generous".into()).or_insert(0);
+                let e = rep
+                    .probes
+                    .entry("max_steps_after_generous".into())
+                    .or_insert(0);
                 *e = (*e).max(after as u64);
             }
         }
@@ -644,9 +823,21 @@ impl NewCase {
         ] {
             rep.probe(p, false);
         }
-        rep.fault_free = !self.entropy.iter().any(|r| matches!(r, EntResp::Fail { .. }));
-        rep.probe("threaded_run_on_real_binary_e3", self.e3 && self.e2.is_some());
-        let engine = if self.e2.is_some() && self.e3 { "E3" } else if self.e2.is_some() { "E2" } else { "E1" };
+        rep.fault_free = !self
+            .entropy
+            .iter()
+            .any(|r| matches!(r, EntResp::Fail { .. }));
+        rep.probe(
+            "threaded_run_on_real_binary_e3",
+            self.e3 && self.e2.is_some(),
+        );
+        let engine = if self.e2.is_some() && self.e3 {
+            "E3"
+        } else if self.e2.is_some() {
+            "E2"
+        } else {
+            "E1"
+        };
         let cmd = self.cmd(false);
         let o = match exec(ctx, dir, &cmd) {
             Ok(o) => o,
@@ -664,30 +855,99 @@ impl NewCase {
         };
         let mut eh = Fnv::new();
         eh.write_u64(o.event_hash());
-        if self.e2.is_some() && o.status == Status::Timeout {
-            // The executor itself stopped making progress. Either the command loops without ever
-            // reaching a scheduling point (a real hang), or it blocks on a real std primitive the
-            // simulator does not control while the holder is suspended (an artefact). The real
-            // binary decides which.
-            let o1 = exec(ctx, dir, &self.cmd(true))?;
-            rep.procs += 1;
-            if o1.status != Status::Timeout {
-                return Err(HarnessError(format!(
-                    "E2 run of `{}` stopped making progress but the real binary ends with {:?}: a blocking primitive outside the seam is held across a scheduling point",
-                    cmd.argv.join(" "),
-                    o1.status
-                )));
-            }
+        if self.e2.is_some() && !self.e3 && o.status == Status::Timeout {
+            // The shuttle executor itself stopped making progress. Either the command loops without
+            // ever reaching a scheduling point (a real hang), or it blocks on a real std primitive the
+            // simulator does not control while the holder is suspended (an artefact of E2: code outside
+            // the seam, e.g. the library, took a std lock across the entropy call). The real binary
+            // under the shim's scheduler (E3) models those locks: its verdict is the one that counts.
+            return self.real_binary_verdict(ctx, dir, "e2_stalled_real_binary_verdict_used");
         }
         self.account_faults(&o, &mut rep);
         self.judge(&o, &mut rep, engine);
+        if engine == "E2" && rep.violations.iter().any(|v| v.property == "C17") {
+            // E2 is a model, and a panic or a hang seen in it can be an artefact of the model:
+            //  * all shuttle tasks share one OS thread, hence one set of real thread-locals — state
+            //    kept per thread outside the seam (a thread_local! RefCell in the library, say) is
+            //    shared between tasks and can panic ("already borrowed") although real threads cannot;
+            //  * shuttle's RwLock lets readers in while a writer waits, std's futex RwLock does not:
+            //    two polling readers can starve a writer for ever in E2, never in the real program.
+            // A C17 violation seen in E2 is therefore confirmed on the real binary under the shim's
+            // scheduler (E3: real std locks, real thread-locals; deterministic for a single searcher,
+            // six seeded schedules otherwise) before it is believed. If none of those runs shows a
+            // violation of the same clause, the real binary's verdict replaces E2's for this case.
+            let mut want: Vec<&str> = rep
+                .violations
+                .iter()
+                .filter(|v| v.property == "C17")
+                .map(|v| if v.clause == "hang" { "hang" } else { "crash" })
+                .collect();
+            want.dedup();
+            let mut confirmed = false;
+            let mut first: Option<RunReport> = None;
+            let tries = if self.workers() <= 1 { 1 } else { 6 };
+            let mut ran = 0;
+            for k in 0..tries {
+                let mut c = self.clone();
+                c.e3 = true;
+                c.cross_e1 = false;
+                if let Some(e2) = c.e2.as_mut() {
+                    if e2.sched.policy == "trace" || k > 0 {
+                        let policy = if k % 2 == 0 { "random" } else { "sticky" };
+                        e2.sched = SchedSpec {
+                            policy: policy.into(),
+                            seed: 0xc0f1_0000 + k,
+                            param: 200,
+                            horizon: 64,
+                            trace: vec![],
+                        };
+                    }
+                }
+                let r = c.run(ctx, dir)?;
+                ran += 1;
+                let hit = r.violations.iter().any(|v| {
+                    v.property == "C17"
+                        && want.contains(&if v.clause == "hang" { "hang" } else { "crash" })
+                });
+                if first.is_none() {
+                    first = Some(r);
+                }
+                if hit {
+                    confirmed = true;
+                    break;
+                }
+            }
+            rep.procs += ran;
+            if !confirmed {
+                let mut r = first.expect("at least one E3 run");
+                r.probe(
+                    "e2_c17_violation_not_seen_on_real_binary_verdict_replaced",
+                    true,
+                );
+                r.procs += ran;
+                return Ok(r);
+            }
+            rep.probe("e2_c17_violation_confirmed_on_real_binary", true);
+        }
 
         // shape: argument classes + fault positions + the schedule actually taken
         let mut sh = Fnv::new();
         sh.write(self.length.clone().unwrap_or_default().as_bytes());
-        sh.write(self.prefix.as_ref().map(|p| p.len().to_string()).unwrap_or_default().as_bytes());
+        sh.write(
+            self.prefix
+                .as_ref()
+                .map(|p| p.len().to_string())
+                .unwrap_or_default()
+                .as_bytes(),
+        );
         sh.write(self.threads.clone().unwrap_or_default().as_bytes());
-        sh.write(format!("{:?}", classify_selector(&self.account_index, &self.hd_path)).as_bytes());
+        sh.write(
+            format!(
+                "{:?}",
+                classify_selector(&self.account_index, &self.hd_path)
+            )
+            .as_bytes(),
+        );
         for (i, r) in self.entropy.iter().enumerate() {
             if matches!(r, EntResp::Fail { .. }) {
                 sh.write_u64(i as u64);
@@ -723,23 +983,44 @@ impl NewCase {
         if self.reparse && o.status.ok() {
             let phrase = o.stdout_str().trim_end_matches('\n').to_string();
             if !phrase.is_empty() && !phrase.contains('\n') {
-                let c2 = Cmd { argv: vec!["address".into(), "--mnemonic".into(), phrase.clone()], ..Cmd::default() };
+                let c2 = Cmd {
+                    argv: vec!["address".into(), "--mnemonic".into(), phrase.clone()],
+                    ..Cmd::default()
+                };
                 let o2 = exec(ctx, dir, &c2)?;
                 eh.write_u64(o2.event_hash());
                 rep.procs += 1;
                 rep.probe("reparse_by_real_binary", true);
                 hist.push(json!({"engine": "E1", "argv": ["address", "--mnemonic", "<printed phrase>"], "status": format!("{:?}", o2.status), "stdout": o2.stdout_str()}));
                 if !o2.status.ok() {
-                    let crashed = matches!(o2.status, Status::Exit(101) | Status::Signal(_) | Status::Timeout);
+                    let crashed = matches!(
+                        o2.status,
+                        Status::Exit(101) | Status::Signal(_) | Status::Timeout
+                    );
                     rep.violate(
                         "C12",
                         "phrase-not-parsed-back",
                         "new|reparse",
-                        format!("`{}` printed {:?}, which `address --mnemonic` rejects: {:?} {}", cmd.argv.join(" "), trunc(&phrase), o2.status, first_line(&o2.stderr)),
+                        format!(
+                            "`{}` printed {:?}, which `address --mnemonic` rejects: {:?} {}",
+                            cmd.argv.join(" "),
+                            trunc(&phrase),
+                            o2.status,
+                            first_line(&o2.stderr)
+                        ),
                     );
                     if crashed {
                         let (loc, msg) = o2.panic_site().unwrap_or_default();
-                        rep.violate("C17", "panic", panic_fingerprint(&loc, &msg), format!("`address --mnemonic {:?}`: {:?} {msg} at {loc}", trunc(&phrase), o2.status));
+                        rep.violate(
+                            "C17",
+                            "panic",
+                            panic_fingerprint(&loc, &msg),
+                            format!(
+                                "`address --mnemonic {:?}`: {:?} {msg} at {loc}",
+                                trunc(&phrase),
+                                o2.status
+                            ),
+                        );
                     }
                 }
             }
@@ -747,7 +1028,11 @@ impl NewCase {
 
         // ---- E2 stubs main.rs: cross-validate single-searcher runs on the real binary -----
         let e2_exited = o.e2.as_ref().map(|h| h.end == "exit").unwrap_or(false);
-        if self.cross_e1 && self.e2.is_some() && e2_exited && (self.prefix.is_none() || self.workers() <= 1) {
+        if self.cross_e1
+            && self.e2.is_some()
+            && e2_exited
+            && (self.prefix.is_none() || self.workers() <= 1)
+        {
             let c1 = self.cmd(true);
             let o1 = exec(ctx, dir, &c1)?;
             eh.write_u64(o1.event_hash());
@@ -757,18 +1042,17 @@ impl NewCase {
             hist.push(json!({"engine": "E1 (cross-validation)", "status": format!("{:?}", o1.status), "stdout": o1.stdout_str()}));
             let same = o1.status == o.status && o1.stdout == o.stdout;
             let e2_ended = o.e2.as_ref().map(|h| h.end == "exit").unwrap_or(false);
-            if !rep1.violations.is_empty() {
-                rep.violations.extend(rep1.violations);
-            } else if !same && e2_ended {
-                return Err(HarnessError(format!(
-                    "E2 and E1 disagree on `{}`: E2 {:?} {:?} vs E1 {:?} {:?}",
-                    cmd.argv.join(" "),
-                    o.status,
-                    trunc(&o.stdout_str()),
-                    o1.status,
-                    trunc(&o1.stdout_str())
-                )));
+            if !same && e2_ended {
+                // E2 is a model (its main.rs is a stub, its tasks share one OS thread); where it and
+                // the real binary differ on a run that no scheduler choice can influence, the real
+                // binary is right by definition and its verdict replaces E2's.
+                return self.real_binary_verdict(
+                    ctx,
+                    dir,
+                    "e2_differs_from_real_binary_verdict_replaced",
+                );
             }
+            rep.violations.extend(rep1.violations);
             if same {
                 rep.cross_validated += 1;
             }
@@ -785,8 +1069,38 @@ impl NewCase {
         rep.event_hash = eh.finish();
         rep.history = json!(hist);
         rep.explicit_choices = o.e2.as_ref().map(|h| h.choices.clone());
-        rep.schedule_id = o.e2.as_ref().filter(|h| !h.choices.is_empty()).map(|h| crate::prng::fnv1a(format!("{}|{:?}", h.sched_hash, h.choices).as_bytes()));
+        rep.schedule_id =
+            o.e2.as_ref().filter(|h| !h.choices.is_empty()).map(|h| {
+                crate::prng::fnv1a(format!("{}|{:?}", h.sched_hash, h.choices).as_bytes())
+            });
         Ok(rep)
+    }
+
+    /// Run this scenario on the real binary under the shim's scheduler and report that.
+    fn real_binary_verdict(
+        &self,
+        ctx: &Ctx,
+        dir: &Path,
+        probe: &str,
+    ) -> Result<RunReport, HarnessError> {
+        let mut c = self.clone();
+        c.e3 = true;
+        c.cross_e1 = false;
+        if let Some(e2) = c.e2.as_mut() {
+            if e2.sched.policy == "trace" {
+                e2.sched = SchedSpec {
+                    policy: "random".into(),
+                    seed: 0xc0f1_0000,
+                    param: 0,
+                    horizon: 64,
+                    trace: vec![],
+                };
+            }
+        }
+        let mut r = c.run(ctx, dir)?;
+        r.probe(probe, true);
+        r.procs += 1;
+        Ok(r)
     }
 
     pub fn explicit(&self, rep: &RunReport) -> Option<NewCase> {
@@ -808,17 +1122,66 @@ impl NewCase {
         let mut c = self.clone();
         let horizon = e2.sched.horizon.max(64);
         c.e2.as_mut().unwrap().sched = match k % 3 {
-            0 => SchedSpec { policy: "random".into(), seed: 0x5eed_0000 + k, param: 0, horizon, trace: vec![] },
-            1 => SchedSpec { policy: "sticky".into(), seed: 0x5eed_0000 + k, param: 192, horizon, trace: vec![] },
-            _ => SchedSpec { policy: "pct".into(), seed: 0x5eed_0000 + k, param: 2, horizon, trace: vec![] },
+            0 => SchedSpec {
+                policy: "random".into(),
+                seed: 0x5eed_0000 + k,
+                param: 0,
+                horizon,
+                trace: vec![],
+            },
+            1 => SchedSpec {
+                policy: "sticky".into(),
+                seed: 0x5eed_0000 + k,
+                param: 192,
+                horizon,
+                trace: vec![],
+            },
+            _ => SchedSpec {
+                policy: "pct".into(),
+                seed: 0x5eed_0000 + k,
+                param: 2,
+                horizon,
+                trace: vec![],
+            },
         };
         Some(c)
     }
 
+    /// The premise of the liveness oracle: the generous tail really is a match for what this
+    /// scenario searches for. `None` when the reference cannot tell (open selector, no digits).
+    pub fn tail_matches(&self) -> Option<bool> {
+        let PrefixClass::Hex(d) = classify_prefix(&self.prefix) else {
+            return None;
+        };
+        if d.is_empty() {
+            return Some(true);
+        }
+        let Selector::Path(p) = classify_selector(&self.account_index, &self.hd_path) else {
+            return None;
+        };
+        let Some(EntResp::Ok(h)) = &self.tail else {
+            return None;
+        };
+        let e = hex::decode(h).ok()?;
+        let len = parse_usize_arg(&self.length, 12)?;
+        if rm::entropy_len(len) != Some(e.len()) {
+            return Some(false);
+        }
+        let a = rm::address_of_entropy(&e, self.password.as_deref().unwrap_or(""), &p)?;
+        Some(rm::has_prefix(&a, &d))
+    }
+
     pub fn shrink_candidates(&self) -> Vec<NewCase> {
         let mut out: Vec<NewCase> = Vec::new();
+        // A simpler scenario must keep the premise of the original: if the tail was a match for
+        // the search, it must still be one after an argument is dropped, otherwise "the search
+        // never ends" becomes true for a reason that has nothing to do with the tree.
+        let premise = self.tail_matches();
         let mut push = |c: NewCase| {
-            if c != *self && !out.contains(&c) {
+            if c != *self
+                && !out.contains(&c)
+                && (premise != Some(true) || c.tail_matches() == Some(true))
+            {
                 out.push(c);
             }
         };
@@ -867,7 +1230,10 @@ impl NewCase {
             if let EntResp::Fail { errno, partial } = &self.entropy[i] {
                 if !partial.is_empty() || *errno != 5 {
                     let mut c = self.clone();
-                    c.entropy[i] = EntResp::Fail { errno: 5, partial: String::new() };
+                    c.entropy[i] = EntResp::Fail {
+                        errno: 5,
+                        partial: String::new(),
+                    };
                     push(c);
                 }
             }
@@ -895,7 +1261,13 @@ impl NewCase {
             if e2.sched.policy == "trace" {
                 let t = &e2.sched.trace;
                 // truncate: the scheduler then stays on the current task / lowest id
-                for keep in [0, t.len() / 4, t.len() / 2, (3 * t.len()) / 4, t.len().saturating_sub(1)] {
+                for keep in [
+                    0,
+                    t.len() / 4,
+                    t.len() / 2,
+                    (3 * t.len()) / 4,
+                    t.len().saturating_sub(1),
+                ] {
                     if keep < t.len() {
                         let mut c = self.clone();
                         c.e2.as_mut().unwrap().sched.trace.truncate(keep);
@@ -935,7 +1307,15 @@ impl NewCase {
 
 fn trunc(s: &str) -> String {
     if s.len() > 200 {
-        format!("{}…", &s[..s.char_indices().take(200).last().map(|(i, _)| i).unwrap_or(0)])
+        format!(
+            "{}…",
+            &s[..s
+                .char_indices()
+                .take(200)
+                .last()
+                .map(|(i, _)| i)
+                .unwrap_or(0)]
+        )
     } else {
         s.to_string()
     }
@@ -999,13 +1379,21 @@ pub fn gen_password(rng: &mut Rng) -> Option<String> {
     match rng.weighted(&[5, 2, 1, 1]) {
         0 => None,
         1 => Some(["TREZOR", "hunter2", "correct horse", " "][rng.usize_below(4)].to_string()),
-        2 => Some(["пароль", "ｐａｓｓ", "e\u{301}", "ﬁ", "パスワード"][rng.usize_below(5)].to_string()),
+        2 => Some(
+            ["пароль", "ｐａｓｓ", "e\u{301}", "ﬁ", "パスワード"][rng.usize_below(5)].to_string(),
+        ),
         _ => Some(String::new()),
     }
 }
 
 /// Draw an entropy value and the prefix it yields: returns (entropy, digits of its address).
-pub fn plant(rng: &mut Rng, ent_len: usize, password: &str, path: &[PathComp], first_digit: Option<u8>) -> (Vec<u8>, String) {
+pub fn plant(
+    rng: &mut Rng,
+    ent_len: usize,
+    password: &str,
+    path: &[PathComp],
+    first_digit: Option<u8>,
+) -> (Vec<u8>, String) {
     loop {
         let e = rng.bytes(ent_len);
         if let Some(a) = rm::address_of_entropy(&e, password, path) {
@@ -1040,18 +1428,51 @@ pub fn mix_case(rng: &mut Rng, digits: &str, mode: u64) -> String {
 pub fn gen_sched(rng: &mut Rng, workers: usize, plan_len: usize) -> SchedSpec {
     let horizon = (8 * (workers + plan_len) + 16) as u32;
     match rng.weighted(&[4, 3, 3]) {
-        0 => SchedSpec { policy: "random".into(), seed: rng.next_u64(), param: 0, horizon, trace: vec![] },
-        1 => SchedSpec { policy: "sticky".into(), seed: rng.next_u64(), param: *rng.pick(&[128u32, 192, 230, 250]), horizon, trace: vec![] },
-        _ => SchedSpec { policy: "pct".into(), seed: rng.next_u64(), param: rng.range(0, 4) as u32, horizon, trace: vec![] },
+        0 => SchedSpec {
+            policy: "random".into(),
+            seed: rng.next_u64(),
+            param: 0,
+            horizon,
+            trace: vec![],
+        },
+        1 => SchedSpec {
+            policy: "sticky".into(),
+            seed: rng.next_u64(),
+            param: *rng.pick(&[128u32, 192, 230, 250]),
+            horizon,
+            trace: vec![],
+        },
+        _ => SchedSpec {
+            policy: "pct".into(),
+            seed: rng.next_u64(),
+            param: rng.range(0, 4) as u32,
+            horizon,
+            trace: vec![],
+        },
     }
+}
+
+/// Bounds, deliberately far above what the present code needs (2 steps per entropy request, 3 per
+/// worker, at most one request per searcher once every response matches) so that implementations
+/// which poll, pre-generate candidates in batches, or hand work out through shared queues stay
+/// well inside them. They exist to turn "never returns" into a finite observation, not to
+/// constrain how the search is organised.
+pub fn step_budget(plan_len: usize, workers: usize) -> u32 {
+    (4000 + 400 * (plan_len + workers)) as u32
+}
+pub fn generous_requests(workers: usize) -> u32 {
+    (384 + 96 * workers) as u32
+}
+pub fn generous_steps(workers: usize) -> u32 {
+    16 * generous_requests(workers)
 }
 
 pub fn e2_params(rng: &mut Rng, workers: usize, plan_len: usize) -> E2Params {
     E2Params {
         sched: gen_sched(rng, workers, plan_len),
-        max_steps: (200 + 40 * (plan_len + workers)) as u32,
-        generous_bound: (64 * (workers + 2)) as u32,
-        generous_requests: (2 * (workers + 2)) as u32,
+        max_steps: step_budget(plan_len, workers),
+        generous_bound: generous_steps(workers),
+        generous_requests: generous_requests(workers),
         lib_tasks: 0,
         lib_len: 0,
         lib_calls: 0,
@@ -1059,6 +1480,11 @@ pub fn e2_params(rng: &mut Rng, workers: usize, plan_len: usize) -> E2Params {
 }
 
 pub struct VanitySpec {
+    /// non-matching responses placed after the planted match (consumed only by searchers that
+    /// are still running when it is found), before the generous tail starts
+    pub after_plant: usize,
+    /// 1..: that many consecutive failures (same errno) instead of one
+    pub fail_burst: usize,
     pub length: usize,
     pub digits: usize,
     pub case_mode: u64,
@@ -1074,8 +1500,16 @@ pub struct VanitySpec {
 /// A vanity-search scenario whose plan contains a planted match.
 pub fn gen_vanity(rng: &mut Rng, spec: &VanitySpec) -> NewCase {
     let ent_len = rm::entropy_len(spec.length).unwrap();
-    let (index, hd_path, path) = if spec.default_account { (None, None, rm::default_path(0)) } else { gen_selector(rng) };
-    let password = if spec.default_account { None } else { gen_password(rng) };
+    let (index, hd_path, path) = if spec.default_account {
+        (None, None, rm::default_path(0))
+    } else {
+        gen_selector(rng)
+    };
+    let password = if spec.default_account {
+        None
+    } else {
+        gen_password(rng)
+    };
     let pw = password.clone().unwrap_or_default();
     let (estar, addr_hex) = plant(rng, ent_len, &pw, &path, spec.first_digit);
     let digits = mix_case(rng, &addr_hex[..spec.digits.min(40)], spec.case_mode);
@@ -1083,22 +1517,45 @@ pub fn gen_vanity(rng: &mut Rng, spec: &VanitySpec) -> NewCase {
     for i in 0..spec.plant_at {
         // mostly random, sometimes a degenerate pattern
         if rng.chance(1, 8) {
-            entropy.push(EntResp::ok(&pattern(rng.usize_below(PATTERNS) + i, ent_len)));
+            entropy.push(EntResp::ok(&pattern(
+                rng.usize_below(PATTERNS) + i,
+                ent_len,
+            )));
         } else {
             entropy.push(EntResp::ok(&rng.bytes(ent_len)));
         }
     }
     entropy.push(EntResp::ok(&estar));
+    for _ in 0..spec.after_plant {
+        entropy.push(EntResp::ok(&rng.bytes(ent_len)));
+    }
     if let Some(f) = spec.fail_at {
         if f < entropy.len() {
-            let errno = *rng.pick(&[5, 38, 14]);
-            let partial = if rng.coin() { hex::encode(rng.bytes_between(1, ent_len)) } else { String::new() };
-            entropy[f] = EntResp::Fail { errno, partial };
+            // EIO, ENOSYS, EFAULT, and the "transient" ones a retry loop would be written for
+            let errno = *rng.pick(&[5, 38, 14, 4, 11]);
+            for k in 0..spec.fail_burst.max(1) {
+                if f + k < entropy.len() {
+                    let partial = if rng.coin() {
+                        hex::encode(rng.bytes_between(1, ent_len))
+                    } else {
+                        String::new()
+                    };
+                    entropy[f + k] = EntResp::Fail { errno, partial };
+                }
+            }
         }
     }
     let mut c = NewCase {
-        length: if spec.length == 12 && rng.coin() { None } else { Some(spec.length.to_string()) },
-        language: if rng.chance(1, 10) { Some(["english", "English", "ENGLISH"][rng.usize_below(3)].into()) } else { None },
+        length: if spec.length == 12 && rng.coin() {
+            None
+        } else {
+            Some(spec.length.to_string())
+        },
+        language: if rng.chance(1, 10) {
+            Some(["english", "English", "ENGLISH"][rng.usize_below(3)].into())
+        } else {
+            None
+        },
         prefix: Some(format!("0x{digits}")),
         password,
         account_index: index,
